@@ -462,7 +462,7 @@ def aux_flow(prop, tier, seed, t0, mode, count, own, models, neg, notes, extra_s
 def check_C15(tier, seed, t0):
     own = ["NeverNaN", "StatusDocumented", "SuccessfulReturnsNev", "SuccessfulMeansTrueResidual", "UnitNorm", "Orthonormal", "OrderedByRule", "ReturnedIsWanted",
            "DavidsonThrew", "UnknownRow", "Jd*"]
-    return aux_flow("C15", tier, seed, t0, "davidson", n_of(tier, 24, 120), own, [("Davidson.tla", "Davidson.cfg", 4)], [], [
+    return aux_flow("C15", tier, seed, t0, "davidson", n_of(tier, 24, 120), own, [("Davidson.tla", "Davidson.cfg", 4)], [("Davidson.tla", "Davidson_neg_status.cfg", 2)], [
         "design model: search-space bookkeeping for all (n <= 12, nev, initial, maximal) inside the documented domain (initial >= nev, initial + correction <= n)",
         "runs: diagonally dominant and moderately coupled symmetric matrices, dense and sparse wrappers, four rules, restarts (small maximal space), user guesses; "
         "true residuals recomputed from the harness' own copy of A in long double",
